@@ -248,3 +248,13 @@ mixed2('C13', [('contracts.pda', k) for k in ('fn.get_next_free[State]', 'fn.get
        ['language statements of the two wrappers from their proved structure: Hopcroft-Motwani-Ullman Thm 6.9 / 6.11, assumed, backed by the bounded comparison',
         'facts about Python strings assumed: the six reserved prefixes are pairwise different and end in "#" (so prefix+digits of one never equals another); State / StackSymbol equality is equality of the value',
         'view-level contracts of pda.TransitionFunction.copy / add_transition and of the PDA constructor are assumed (their concrete dict-of-set representation is not verified)'])
+
+mixed2('C16', [('contracts.fst', k) for k in ('FST.add_transition', 'FST.add_start_state', 'FST.add_final_state', 'Renaming.add_state', 'Renaming.get_name', 'Renaming.add_states',
+                                             'FST._add_transitions_to', 'FST._add_start_states_to', 'FST._add_final_states_to', 'FST._add_extremity_states_to', 'FST._copy_into',
+                                             'FST._get_state_renaming', 'FST.union', 'FST.concatenate', 'FST.kleene_star')] + [('contracts.fa', 'ENFA.to_fst')], [],
+       'Deductive for the transducer mutators (against the view D(p, a, q, out)), the state renaming FSTStateRemaining (proved injective: no two (state, operand) keys share a name), the copy helpers, '
+       'union, concatenate and kleene_star (exact transitions, start and final states of the result under the injective renaming: disjoint copies, epsilon bridges final->start, one fresh start/final state for the star) '
+       'and FiniteAutomaton.to_fst (same edges, each writing its own symbol, epsilon edges writing nothing).',
+       'contract-based deductive verification (pyvc + z3) of the structure of union / concatenate / kleene_star / to_fst and of the state renaming; bounded run-time contract checking for translate and for the relation statements',
+       ['relation algebra on top of the proved structure (union, product, star of rational relations; identity on L(A)): textbook (Berstel, Transductions and Context-Free Languages, ch. III), assumed, backed by the bounded relation comparison',
+        'FST._delta lists are viewed as sets of transitions (how often a transition is listed does not change the relation); list(set) is read as the set where it is only iterated'])
